@@ -24,18 +24,13 @@ structure InCode where
   funcs : List InFunc
   deriving Repr
 
-/-- `ArenaSet::insert` over the type section: index ↦ id, ids in first-occurrence order -/
-def dedupIds (sigs : List Sig) : List Nat :=
-  let rec go (rest : List Sig) (seen : List Sig) (acc : List Nat) : List Nat :=
-    match rest with
-    | [] => acc.reverse
-    | s :: r =>
-      let i := seen.findIdx (· == s)
-      if i < seen.length then go r seen (i :: acc) else go r (seen ++ [s]) (seen.length :: acc)
-  go sigs [] []
-
 def distinctSigs (sigs : List Sig) : List Sig :=
   sigs.foldl (fun seen s => if seen.contains s then seen else seen ++ [s]) []
+
+/-- `ArenaSet::insert` over the type section: index ↦ id. Ids are handed out in first-occurrence
+    order, so the id of a signature is its position among the distinct signatures. -/
+def dedupIds (sigs : List Sig) : List Nat :=
+  sigs.map fun s => (distinctSigs sigs).findIdx (· == s)
 
 def lexLe : List Nat → List Nat → Bool
   | [], _ => true
